@@ -12,6 +12,7 @@ package main
 // bundle import first or after an earlier load); 2..3 fixture files in one engine.
 
 import (
+	"go/build"
 	"fmt"
 	"go/ast"
 	"go/importer"
@@ -527,6 +528,8 @@ type e2eJob struct {
 	targets   []*hx.Target
 	goVersion string
 	traits    []string // what the generator put into the history (distribution record only)
+	// buildTags, when set: both engines get a BuildContext (build.Default plus these tags) before anything is loaded
+	buildTags []string
 }
 
 type e2eStep struct {
@@ -546,7 +549,16 @@ type e2eLoaded struct {
 // c05LoadJob performs the loads and conversions of one history (safe to run in parallel with other jobs).
 func c05LoadJob(j *e2eJob, imp types.Importer, fset *token.FileSet, census bool) *e2eLoaded {
 	o := &e2eLoaded{steps: make([]e2eStep, len(j.files))}
-	o.eA = ruleguard.NewEngine()
+	newEngine := func() *ruleguard.Engine {
+		e := ruleguard.NewEngine()
+		if j.buildTags != nil {
+			bc := build.Default
+			bc.BuildTags = append([]string(nil), j.buildTags...)
+			e.BuildContext = &bc
+		}
+		return e
+	}
+	o.eA = newEngine()
 	for i, f := range j.files {
 		o.steps[i].errA = hx.LoadInto(o.eA, f.filename, f.src, nil)
 	}
@@ -566,14 +578,14 @@ func c05LoadJob(j *e2eJob, imp types.Importer, fset *token.FileSet, census bool)
 		}
 	}
 	o.built = true
-	o.eB = ruleguard.NewEngine()
+	o.eB = newEngine()
 	for i, f := range j.files {
 		o.steps[i].errB = c05LoadIRInto(o.eB, f.filename, o.steps[i].evaluated)
 	}
 	if census && len(j.files) > 1 {
 		o.lone = make([]*ruleguard.Engine, len(j.files))
 		for i, f := range j.files {
-			if e := ruleguard.NewEngine(); o.steps[i].errA == nil && hx.LoadInto(e, f.filename, f.src, nil) == nil {
+			if e := newEngine(); o.steps[i].errA == nil && hx.LoadInto(e, f.filename, f.src, nil) == nil {
 				o.lone[i] = e
 			}
 		}
@@ -808,6 +820,13 @@ func c05E2E(c *Ctx) ([]e2eFile, error) {
 	// bundle imports: dsl.ImportRules of verifharness/c05bundle (resolved by `go list` from the harness directory)
 	for i, prefix := range []string{"pfx", "", "a/b"} {
 		jobs = append(jobs, &e2eJob{name: fmt.Sprintf("bundle#%d", i), kind: "bundle", files: []e2eSrc{{"rules.go", c05BundleRules(prefix, "own")}}, targets: []*hx.Target{genTarget}})
+	}
+	// an engine configuration other than the default: a build tag without which a type named by the rules does not exist
+	for i, tags := range [][]string{{"c05tag"}, {}, {"othertag", "c05tag"}} {
+		jobs = append(jobs, &e2eJob{name: fmt.Sprintf("buildctx#%d", i), kind: "buildctx", buildTags: tags, targets: []*hx.Target{genTarget}, files: []e2eSrc{{"rules.go",
+			"package gorules\n\nimport \"github.com/quasilyte/go-ruleguard/dsl\"\n\nfunc tagged(m dsl.Matcher) {\n\tm.Import(`verifharness/c05tagged`)\n" +
+				"\tm.Match(`f($x)`).Where(m[\"x\"].Type.Implements(`c05tagged.Walker`)).Report(`walker $x`)\n" +
+				"\tm.Match(`g($x, $_)`).Where(!m[\"x\"].Type.Implements(`c05tagged.Walker`)).Report(`no walker $x`)\n}\n"}}})
 	}
 	if nFixtures < 20 {
 		res.Errorf("only %d fixture rules files found under %s", nFixtures, root)
